@@ -17,6 +17,7 @@ REQUIRED_HOOKS = [
     "poisson.solve_poisson_ivp",
     "poisson.interpolate_laplacian",
     "robust_poisson.solve_poisson_robust",
+    "coulomb.coulomb_potential",
 ]
 REQUIRED_FAMILIES = [
     "bvp-centred",
@@ -29,6 +30,7 @@ REQUIRED_FAMILIES = [
     "robust-route",
     "robust-exact-core",
     "robust-smooth",
+    "weak-density",
 ]
 BUDGET = {"quick": 1200, "thorough": 7200}
 MAX_DISCARD_FRACTION = 0.05
@@ -39,6 +41,7 @@ TOL_LIN = 1e-3  # x scale    : linearity
 TOL_LAP = 1e-2  # x max(1, max|4 pi rho|)
 TOL_ROUTE = 1e-9  # x max(1, scale) : robust == core potential + BVP(residual)
 TOL_CORE = 1e-8  # x max(1, core charge) : density == core model
+TOL_WEAK = 1e-2  # x sum|c| : V[lam rho]/lam against V[rho] and against the truth, lam in [1e-6, 1e-4] (worst observed 3.7e-5)
 TOL_COREPOT = 1e-11  # library coulomb_potential(core, s-type only) vs own erf sum (relative to core charge)
 
 RULE = (
@@ -305,6 +308,37 @@ def cases(tier, seed):
             l = int(rng.integers(1, lmax + 1))
             lms.append([l, int(rng.integers(-l, l + 1))])
         add("laplacian", {"k": k, "rad": spec, "degree": deg, "lm": lms, "nterms": int(rng.integers(1, 3))}, 1.0 + spec["n"] / 1000.0)
+    # 7b. moderately weak densities (total charge 1e-6 .. 1e-4) with non-spherical content: homogeneity and accuracy
+    for k in range(6 if q else 60):
+        dens = ["off", "aniso", "mol"][k % 3]
+        lam_hi = 2e-6 if k < 3 else 1e-4  # every run: one off-centre, one anisotropic, one molecular solve at charge scale 1e-6
+        if dens == "mol":
+            spec = {"kind": "cc-becke", "n": _pick(rng, [100, 120]), "rmin": _pick(rng, [1e-5, 1e-6]), "R": _pick(rng, [1.0, 1.5])}
+            opts = {"include_origin": False, "rlp": 1e6}
+            nat = int(rng.integers(2, 4))
+            pool = _pick(rng, [[1], [6, 7, 8]])
+            p = {"k": k, "dens": dens, "rad": spec, "opts": opts, "degree": 14, "atnums": [int(_pick(rng, pool)) for _ in range(nat)], "lam_hi": lam_hi}
+            cost = 3.5 * nat
+        else:
+            kind = ["cc-becke", "gl-handymod", "cc-becke", "gl-handy", "gl-becke-origin"][(k // 3) % (2 if q else 5)]
+            if kind == "cc-becke":
+                spec = {"kind": kind, "n": _pick(rng, [100, 120]), "rmin": _pick(rng, [1e-6, 1e-6, 1e-5]), "R": _pick(rng, [1.0, 1.5])}
+                opts = {"include_origin": False, "rlp": 1e6}
+            elif kind == "gl-handymod":
+                spec = {"kind": kind, "n": _pick(rng, [100, 120]), "rmax": _pick(rng, [60.0, 80.0])}
+                opts = {"include_origin": False, "rlp": _pick(rng, [None, 1e6])}
+            elif kind == "gl-handy":
+                spec = {"kind": kind, "n": _pick(rng, [100, 120]), "R": 1.5}
+                opts = {"include_origin": False, "rlp": 1e6}
+            else:
+                spec = {"kind": "gl-becke", "n": 100, "rmin": 1e-5, "R": _pick(rng, [1.0, 1.5])}
+                opts = {"include_origin": True, "rlp": _pick(rng, [None, 1e6]), "tol": 1e-4}
+            deg = _pick(rng, [10, 14, 16])
+            lmax = min(deg // 2, 5)
+            lms = [[int(l), int(rng.integers(-l, l + 1))] for l in rng.integers(1, lmax + 1, 2)]
+            p = {"k": k, "dens": dens, "rad": spec, "opts": opts, "degree": deg, "lm": lms, "lam_hi": lam_hi}
+            cost = 25.0 if opts.get("tol") else 2.0
+        add("weak-density", p, cost)
     # 8-10. robust solver
     zs = [1, 6, 7, 8, 17]
     for k in range(4 if q else 48):
@@ -348,6 +382,35 @@ def setup(ctx):
         if _capture["on"] and exc is None:
             _capture["calls"].append((args, kwargs, res))
 
+    import grid.coulomb as gc
+
+    def post_coulomb(res, exc, args, kwargs):
+        """Every call of the public closed-form routine (the robust solver's analytic part): s-type sum against the monitor's
+        own erf sum, at whatever points the caller asked for - including points exactly on a centre."""
+        if exc is not None:
+            return
+        names = ["points", "centers_s", "coeffs_s", "alphas_s", "centers_p", "coeffs_p", "alphas_p", "normalized"]
+        b = dict(zip(names, args))
+        b.update(kwargs)
+        if b.get("coeffs_p") is not None or b.get("centers_p") is not None:
+            return  # p-type functions are C17's business (open finding); the robust solver never passes them
+        pts = np.array(b["points"], dtype=float)
+        cs, al = np.array(b["coeffs_s"], dtype=float), np.array(b["alphas_s"], dtype=float)
+        ctr = np.array(b["centers_s"], dtype=float)
+        if len(cs) == 0:
+            return
+        fac = np.ones(len(cs)) if b.get("normalized", True) else (np.pi / al) ** 1.5
+        want = ref.gauss_potential(pts, cs * fac, al, ctr)
+        scale = float(np.sum(np.abs(cs * fac) * np.maximum(1.0, 2.0 * np.sqrt(al / np.pi))))
+        got = np.asarray(res, dtype=float)
+        d = np.abs(got - want)
+        err = float(np.max(d)) if np.all(np.isfinite(got)) and got.shape == want.shape else float("nan")
+        i = int(np.nanargmax(d)) if np.any(np.isfinite(d)) else 0
+        dist = float(np.min(np.linalg.norm(pts[i][None, :] - ctr, axis=1)))
+        where = "on-centre" if dist < 1e-12 else ("near-centre" if dist < 1e-6 else "generic-point")
+        ctx.check("robust-core-potential-analytic", "coulomb_potential(hook)", err / scale, TOL_COREPOT, sig=f"worst-at:{where}", detail={"max_abs_err": err, "scale": scale, "got": float(got.ravel()[i]) if got.size else None, "want": float(want[i]), "dist_to_centre": dist, "n_gauss": len(cs)})
+
+    instrument.wrap_function(ctx, gc, "coulomb_potential", post_coulomb)
     instrument.wrap_function(ctx, gp, "solve_poisson_bvp", post_bvp)
     instrument.wrap_function(ctx, gp, "solve_poisson_ivp", post_callable("solve_poisson_ivp"))
     instrument.wrap_function(ctx, gp, "interpolate_laplacian", post_callable("interpolate_laplacian"))
@@ -370,6 +433,20 @@ def _eval_points(rng, centers, n=NPTS, lo=0.05, hi=8.0):
         d = np.min(np.linalg.norm(p[:, None, :] - centers[None, :, :], axis=2), axis=1)
         out.extend(p[d >= lo])
     return np.array(out[:n])
+
+
+def _nuclear_points(rng, centers):
+    """The centres EXACTLY, and points 1e-13 and 1e-10 away from each (returns points, mask of the exact ones)."""
+    centers = np.atleast_2d(np.asarray(centers, dtype=float))
+    pts, exact = [], []
+    for c in centers:
+        pts.append(c.copy())
+        exact.append(True)
+        for eps in (1e-13, 1e-10):
+            u = rng.normal(size=3)
+            pts.append(c + eps * u / np.linalg.norm(u))
+            exact.append(False)
+    return np.array(pts), np.array(exact)
 
 
 def _loguniform(rng, lo, hi, size=None):
@@ -663,6 +740,49 @@ def _run(ctx, family, params):
         _compare(ctx, "laplacian-of-potential", subj + ":random-points", lap(P), src(P), TOL_LAP, scale, note="lap-err/scale(random)")
         ctx.case_note("n_grid_points_checked", int(mask.sum()))
 
+    elif family == "weak-density":
+        rg, tf, r0, rmax = make_radial(params["rad"])
+        dens = params["dens"]
+        truth_decided = True
+        if dens == "mol":
+            atn = params["atnums"]
+            coords = _geometry(rng, len(atn))
+            g = _molgrid(rg, params["degree"], atn, coords)
+            cs, al = rng.uniform(0.3, 2.0, len(atn)), _loguniform(rng, 0.4, 3.0, len(atn))
+            rho, P = ref.gauss_density(g.points, cs, al, coords), _eval_points(rng, coords)
+            truth, scale = ref.gauss_potential(P, cs, al, coords), float(np.sum(np.abs(cs)))
+            truth_decided = False  # molecular accuracy (<= 1e-3) is decided at O(1) charge by bvp-mol; here: homogeneity
+        else:
+            ctr = _centre(rng)
+            g = _atomgrid(rg, params["degree"], ctr)
+            P = _eval_points(rng, [ctr])
+            if dens == "off":
+                n = int(rng.integers(1, 3))
+                cs, al = _coeffs(rng, n), _loguniform(rng, 0.2, 3.0, n)
+                ds = []
+                for a in al:
+                    u = rng.normal(size=3)
+                    ds.append(ctr + u / np.linalg.norm(u) * rng.uniform(0.2, 0.5) / np.sqrt(a))
+                rho, truth, scale = ref.gauss_density(g.points, cs, al, ds), ref.gauss_potential(P, cs, al, ds), float(np.sum(np.abs(cs)))
+            else:
+                comps = _aniso_comps(rng, params["lm"])
+                c0, a0 = float(rng.uniform(0.3, 1.5)), float(_loguniform(rng, 0.3, 4.0))
+                rho = ref.aniso_density(g.points, comps, ctr) + ref.gauss_density(g.points, [c0], [a0], [ctr])
+                truth = ref.aniso_potential(P, comps, ctr) + ref.gauss_potential(P, [c0], [a0], [ctr])
+                scale = c0 + float(sum(abs(c[0]) for c in comps))
+            # first node 1e-5 with include_origin=False costs 2e-4 V(0)/r of accuracy: truth comparison only with >= 100x margin
+            truth_decided = not (params["rad"]["kind"] == "cc-becke" and params["rad"]["rmin"] > 2e-6)
+        lam = float(_loguniform(rng, 1e-6, params["lam_hi"]))
+        subj = _subject("solve_poisson_bvp" + (":molgrid" if dens == "mol" else ""), params["rad"], params["opts"]) + f":weak-density:{dens}"
+        kw = _bvp_kwargs(params["opts"])
+        v1 = _call(ctx, "weak-density-homogeneity", subj, lambda: solve_poisson_bvp(g, rho, tf, **kw))
+        vl = _call(ctx, "weak-density-homogeneity", subj, lambda: solve_poisson_bvp(g, lam * rho, tf, **kw))
+        got = vl(P) / lam
+        _compare(ctx, "weak-density-homogeneity", subj, got, v1(P), TOL_WEAK, scale, note="|V[lam rho]/lam - V[rho]|/sum|c|", extra={"lambda": lam})
+        if truth_decided:
+            _compare(ctx, "weak-density-accuracy", subj, got, truth, TOL_WEAK, scale, note="|V[lam rho]/lam - exact|/sum|c|", extra={"lambda": lam})
+        ctx.case_note("lambda", lam)
+
     elif family in ("robust-route", "robust-exact-core", "robust-smooth"):
         _run_robust(ctx, family, params)
     else:
@@ -693,6 +813,11 @@ def _run_robust(ctx, family, params):
     qcore = ref.core_charge(atn)
     P = _eval_points(rng, coords)
     atn_arr, crd = np.array(atn), np.array(coords)
+    # the nuclei EXACTLY and points 1e-13 / 1e-10 away.  What is decided there: the analytic (closed-form) part - through the
+    # hook on coulomb_potential, which fires on these evaluations - and the whole robust potential when density == core model
+    # (numerical part is the solution for a zero residual).  NOT decided there: the numerical BVP part, which the library sets to
+    # exactly 0 at |r| < 1e-300 by construction and whose u(r)/r is rounding noise / r for r <= 1e-10 (measured 5e-3 at 1e-13).
+    PN, exactN = _nuclear_points(rng, coords)
 
     if family == "robust-exact-core":
         s2 = params["split2"]
@@ -700,6 +825,12 @@ def _run_robust(ctx, family, params):
         rho = ref.core_density(grid.points, atn, coords)
         pot = _call(ctx, "robust-exact-on-core-model", subj, lambda: solve_poisson_robust(grid, rho, tf, atn_arr, crd, split2=s2, **kw))
         _compare(ctx, "robust-exact-on-core-model", subj, pot(P), ref.core_potential(P, atn, coords), TOL_CORE, max(1.0, qcore), note="err/core-charge")
+        # at the nuclei themselves (molecules: only the exact positions - at 1e-13 the zero-residual solve leaves 1e-17/r noise)
+        PNd = PN if not mol else PN[exactN]
+        vN = _call(ctx, "robust-exact-on-core-model", subj + ":at-nuclei", lambda: pot(PNd))
+        _compare(ctx, "robust-exact-on-core-model", subj + ":at-nuclei", vN, ref.core_potential(PNd, atn, coords), TOL_CORE, max(1.0, qcore), note="err/core-charge(at nuclei)")
+        if mol:
+            pot(PN[~exactN])  # analytic part still checked by the hook
         return
 
     # smooth density: Gaussians on the nuclei, charge 0.5..4 each
@@ -720,6 +851,7 @@ def _run_robust(ctx, family, params):
         finally:
             _capture["on"] = False
         got = pot(P)
+        gotN = _call(ctx, "robust-equals-core-plus-bvp", subj + ":at-nuclei", lambda: pot(PN))  # hook checks the analytic part
         # (a) what the robust solver handed to the public BVP solver
         own_core = ref.core_density(grid.points, atn, coords)
         calls = [c for c in _capture["calls"] if len(c[0]) >= 2 and np.shape(c[0][1]) == np.shape(rho)]
@@ -740,6 +872,9 @@ def _run_robust(ctx, family, params):
             co, ao = load_atomic_gaussian_params(z)
             vcore_lib += coulomb_potential(P, centers_s=np.tile(c, (len(co), 1)), coeffs_s=co, alphas_s=ao, normalized=True)
         _compare(ctx, "robust-equals-core-plus-bvp", subj, got, vcore_lib + plain_res(P), TOL_ROUTE, max(1.0, scale), note="route-err/scale")
+        # exactly at the nuclei both numerical parts are 0 by construction: robust == analytic core part == own closed form
+        PX = PN[exactN]
+        _compare(ctx, "robust-equals-core-plus-bvp", subj + ":at-nuclei", gotN[exactN], ref.core_potential(PX, atn, coords) + plain_res(PX), TOL_ROUTE, max(1.0, scale))
         # (c) the analytic part against the monitor's own closed form (s-type only)
         _compare(ctx, "robust-core-potential-analytic", f"coulomb_potential{tag}", vcore_lib, ref.core_potential(P, atn, coords), TOL_COREPOT, max(1.0, qcore))
         # (d) and the truth
@@ -760,6 +895,9 @@ def _run_robust(ctx, family, params):
                 ctx.count("robust-smooth:one-branch-not-converged")
             continue
         res[s2] = pot(P)
+        vN = pot(PN)  # analytic core and split-2 parts at / next to the nuclei go through the coulomb_potential hook
+        if not np.all(np.isfinite(vN[exactN])):
+            ctx.fail("robust-vs-plain", subj + ":at-nuclei", "non-finite")
         _compare(ctx, "robust-vs-plain", subj, res[s2], vplain, TOL_ACC, scale, note=f"vs-plain/scale(split2={s2})")
         _compare(ctx, "robust-accuracy", subj, res[s2], truth, TOL_ACC, scale, note=f"vs-truth/scale(split2={s2})")
     if len(res) == 2:
